@@ -22,7 +22,7 @@ impl StabilisationNum {
 //@ impl: impl StabilisationNum
 //@ name: is_never
 //@ as: fn is_never(&self) -> (r: bool)
-//@ props: C06
+//@ props: C05 C06
 //@ contract:
 //@|     ensures r == (self.0 == -1), // [never-is-minus-one]
 //@end
@@ -226,7 +226,7 @@ impl Node {
 //@ cells: recomputed_at
 //@ tracing: yes
 //@ rule R8 re: `(\w+(?:\.\w+\(\))*)\.get\(\)\s*(>=|<=|==|!=|>|<)\s*self\.recomputed_at\b` => `\1.get().0 \2 self.recomputed_at.0` x1
-//@ props: C06
+//@ props: C05 C06
 //@ contract:
 //@|     requires vx_p1.wf(),
 //@|     ensures r == (vx_p1.changed_at.0 > self.recomputed_at.0), // [an-input-makes-its-dependant-stale-iff-it-changed-strictly-after-the-dependant-last-ran]
@@ -239,7 +239,7 @@ impl Node {
 //@ as: fn edge_is_stale(&self, parent: &Node) -> (r: bool)
 //@ cells: changed_at
 //@ rule R8 re: `self\.changed_at\s*(>=|<=|==|!=|>|<)\s*parent\.recomputed_at\(\)\.get\(\)` => `self.changed_at.0 \1 parent.recomputed_at().get().0` x1
-//@ props: C06
+//@ props: C05 C06
 //@ contract:
 //@|     requires parent.wf(),
 //@|     ensures r == (self.changed_at.0 > parent.recomputed_at.0), // [edge-stale-iff-child-changed-strictly-after-parent-ran]
@@ -253,7 +253,7 @@ impl Node {
 //@ cells: recomputed_at, force_stale
 //@ cells@e: force_stale
 //@ rule R8 re: `set_at\s*(>=|<=|==|!=|>|<)\s*recomputed_at\b` => `set_at.0 \1 recomputed_at.0` x1
-//@ props: C06 C05
+//@ props: C05 C06
 //@ contract:
 //@|     ensures r == self.stale(), // [stale-iff-never-run-or-an-input-or-the-variable-changed-since-or-forced]
 //@end
@@ -264,7 +264,7 @@ impl Node {
 //@ name: is_necessary
 //@ as: fn is_necessary(&self) -> (r: bool)
 //@ cells: parents, observers, force_necessary
-//@ props: C05
+//@ props: C05 C11
 //@ contract:
 //@|     ensures r == self.necessary(), // [necessary-iff-it-has-a-dependant-or-an-observer-or-is-forced]
 //@end
@@ -285,7 +285,7 @@ impl Node {
 //@ name: is_in_recompute_heap
 //@ as: fn is_in_recompute_heap(&self) -> (r: bool)
 //@ cells: height_in_recompute_heap
-//@ props: C05
+//@ props: C05 C11
 //@ contract:
 //@|     ensures r == (self.height_in_recompute_heap >= 0), // [queued-iff-it-has-a-heap-height]
 //@end
@@ -296,7 +296,7 @@ impl Node {
 //@ name: became_unnecessary
 //@ as: fn became_unnecessary(&self, state: &State)
 //@ tracing: yes
-//@ props: C05
+//@ props: C05 C11
 //@ contract:
 //@|     requires !self.necessary(),
 //@|     // [teardown-never-panics]: the debug assertion !needs_to_be_computed() and the precondition of
@@ -311,7 +311,7 @@ impl Node {
 //@ tracing: yes
 //@ panics: diverge
 //@ rule R8: `state.recompute_heap.remove(self.packed());` => `vx_diverge();` x1
-//@ props: C05
+//@ props: C05 C11
 //@ contract:
 //@|     requires !self.necessary(), self.height_in_recompute_heap >= 0,
 //@|     ensures false, // [a-node-that-becomes-unnecessary-while-queued-always-leaves-the-recompute-heap]
@@ -322,7 +322,7 @@ impl Node {
 //@ impl: impl ErasedNode for Node
 //@ name: add_parent_without_adjusting_heights
 //@ as: fn add_parent_without_adjusting_heights(&self, child_index: i32, parent_ref: &Node, state: &State)
-//@ props: C14
+//@ props: C11 C14
 //@ contract:
 //@|     requires
 //@|         parent_ref.necessary(),
@@ -338,7 +338,7 @@ impl Node {
 //@ as: fn add_parent_without_adjusting_heights__expert_parent_hears_of_the_new_edge(&self, child_index: i32, parent_ref: &Node, state: &State)
 //@ panics: diverge
 //@ rule R8: `expert.run_edge_callback(child_index)` => `expert.run_edge_callback__reached(child_index)` x*
-//@ props: C14
+//@ props: C11 C14
 //@ contract:
 //@|     requires
 //@|         parent_ref.necessary(),
@@ -406,7 +406,7 @@ impl Node {
 //@ cut_before: let parents = 
 //@ panics: diverge
 //@ rule R8: `self.maybe_handle_after_stabilisation(state);` => `vx_diverge();` x*
-//@ props: C09
+//@ props: C06 C09
 //@ contract:
 //@|     requires did_change,
 //@|     ensures false, // [whichever-recompute-path-reports-a-change-the-node-is-queued-for-its-update-handlers]
@@ -453,7 +453,7 @@ impl Node {
 //@ tracing: yes
 //@ rule R8 re: `if let Some\(Kind::BindMain \{ bind, \.\. \}\) = self\.kind\(\) \{\s*let mut all = bind\.all_nodes_created_on_rhs\.borrow_mut\(\);\s*invalidate_nodes_created_on_rhs\(&mut all, state\);\s*\}` => `if let Some(Kind::BindMain { bind, .. }) = self.kind() { vx_invalidate_rhs_nodes_of(bind, state); }` x1
 //@ rule R8: `drop(prop_stack);` => `` x1
-//@ props: C05 C06 C09
+//@ props: C05 C06 C09 C11 C14
 //@ contract:
 //@|     requires old(self).is_valid ==> (!old(self).necessary() || true),
 //@|     ensures
@@ -477,7 +477,7 @@ impl Node {
 //@ rule R8: `drop(prop_stack);` => `` x*
 //@ as: fn invalidate_node__a_necessary_node_releases_its_children(&mut self, state: &State)
 //@ rule R8: `self.remove_children(state);` => `vx_diverge();` x*
-//@ props: C05
+//@ props: C05 C06 C09 C11 C14
 //@ contract:
 //@|     requires old(self).is_valid, old(self).necessary(),
 //@|     ensures false, // [an-invalidated-node-that-is-necessary-for-whatever-reason-releases-its-children]
@@ -497,7 +497,7 @@ impl Node {
 //@ rule R8: `drop(prop_stack);` => `` x*
 //@ as: fn invalidate_node__a_queued_node_is_dequeued(&mut self, state: &State)
 //@ rule R8: `state.recompute_heap.remove(self.packed());` => `vx_diverge();` x*
-//@ props: C05 C06
+//@ props: C05 C06 C09 C11 C14
 //@ contract:
 //@|     requires old(self).is_valid, old(self).height_in_recompute_heap >= 0,
 //@|     ensures false, // [an-invalidated-node-that-is-queued-always-leaves-the-recompute-heap]
